@@ -36,6 +36,11 @@ Definition rmap {A B} (f : A -> B) (x : res A) : res B := rbind x (fun a => Ok (
 Section RB.
   Variables K V : Type.
   Variable cmp : K -> K -> comparison.   (* cmp a b = Lt / Eq / Gt  <->  C cmp(a,b) < 0 / == 0 / > 0 *)
+  (* donor choice of Tree_Rem for a node with two children, read from the source (Generated.v):
+     use_succ (predecessor is black) (successor is red) = true  -> the in-order SUCCESSOR refills the node,
+     otherwise the in-order predecessor.  The pinned tree always takes the predecessor (fun _ _ => false);
+     every theorem is proved for ALL such functions. *)
+  Variable use_succ : bool -> bool -> bool.
 
   Inductive tree := E | T (c : color) (l : tree) (k : K) (v : V) (r : tree).
 
@@ -208,6 +213,23 @@ Section RB.
     | T _ _ k v r => match r with E => Some (k, v) | T _ _ _ _ _ => max_kv r end
     end.
 
+  (* ---------------------------------------------------------------- Tree_Minimum (mirror image) *)
+  Fixpoint min_node (t : tree) (p : path) : tree * path :=
+    match t with
+    | E => (E, p)
+    | T c l k v r =>
+        match l with
+        | E => (t, p)
+        | T _ _ _ _ _ => min_node l (F DL c k v r :: p)
+        end
+    end.
+
+  Fixpoint min_kv (t : tree) : option (K * V) :=
+    match t with
+    | E => None
+    | T _ l k v _ => match l with E => Some (k, v) | T _ _ _ _ _ => min_kv l end
+    end.
+
   (* ---------------------------------------------------------------- Tree_Rem, after the search.
      rem_splice: `node` (colour nc, at most one child chld, way p1) is taken out:
        if (Tree_Is_Black(node)) { node takes chld's colour; Tree_Rem_Fix(node); }
@@ -225,17 +247,33 @@ Section RB.
     | T nc nl _ _ nr => rem_splice nc (match nr with E => nl | T _ _ _ _ _ => nr end) p1
     end.
 
+  (* two children: the key and value of an in-order neighbour (the donor) are copied into the node
+     (memcpy; the node keeps its colour) and the donor is taken out instead.
+     rem_pred: donor = Tree_Maximum(left subtree);  rem_succ: donor = Tree_Minimum(right subtree) *)
+  Definition rem_pred (xc : color) (xl xr : tree) (p : path) : res tree :=
+    match max_kv xl with
+    | Some (pk, pv) => let '(node, p1) := max_node xl (F DL xc pk pv xr :: p) in rem_node node p1
+    | None => Crash
+    end.
+
+  Definition rem_succ (xc : color) (xl xr : tree) (p : path) : res tree :=
+    match min_kv xr with
+    | Some (sk, sv) => let '(node, p1) := min_node xr (F DR xc sk sv xl :: p) in rem_node node p1
+    | None => Crash
+    end.
+
+  Definition donor_is_succ (xl xr : tree) : bool :=
+    use_succ (is_black (fst (max_node xl []))) (is_red (fst (min_node xr []))).
+
   (* x = the node found, p = the way to it *)
   Definition rem_at (x : tree) (p : path) : res tree :=
     match x with
     | E => Crash
     | T xc xl xk xv xr =>
-        match xl, xr, max_kv xl with
-        | T _ _ _ _ _, T _ _ _ _ _, Some (pk, pv) =>
-            (* two children: the in-order predecessor's key and value are copied into the node
-               (memcpy; the node keeps its colour), the predecessor is removed instead *)
-            let '(node, p1) := max_node xl (F DL xc pk pv xr :: p) in rem_node node p1
-        | _, _, _ => rem_node x p
+        match xl, xr with
+        | T _ _ _ _ _, T _ _ _ _ _ =>
+            if donor_is_succ xl xr then rem_succ xc xl xr p else rem_pred xc xl xr p
+        | _, _ => rem_node x p
         end
     end.
 
